@@ -331,6 +331,24 @@ void dumpForest(const char* name, forest* F, const Kind& k) {
     emit("count %s live %ld reported %ld", name, live, F->getCurrentNumNodes());
 }
 
+void emitForest(const std::string& name, forest* F, const Kind& k, const Pol& p) {
+    emit("forest %s %u %s %s", name.c_str(), F->FID(), k.str().c_str(), p.str().c_str());
+}
+void emitTable(const std::string& ename, const std::string& fname, const Dom& D, const dd_edge& e) {
+    emit("table %s %s %s", ename.c_str(), fname.c_str(), tableStr(tableOf(D, e)).c_str());
+}
+void emitAudit(const std::string& fname, forest* F, const Kind& k) {
+    emit("cleardump %s", fname.c_str());
+    dumpForest(fname.c_str(), F, k);
+    emit("audit %s", fname.c_str());
+}
+void emitRoot(const std::string& ename, const std::string& fname, const dd_edge& e, const Kind& k) {
+    emit("root %s %s %s", ename.c_str(), fname.c_str(), edgeStr(e, k).c_str());
+}
+void emitEq(const std::string& e1, const std::string& e2, const dd_edge& a, const dd_edge& b) {
+    emit("eq %s %s %d", e1.c_str(), e2.c_str(), int(a == b));
+}
+
 const char* errName(const error& e) {
     switch (e.getCode()) {
 #define C(x) case error::x: return #x;
